@@ -16,12 +16,14 @@ Definition query_ok (s : list (Z * float)) (q : Z * (bool * float)) : bool :=
 Definition gw_check (c : list (Z * float) * list (Z * (bool * float))) : nat :=
   let '(s, qs) := c in length (filter (fun q => negb (query_ok s q)) qs).
 
-(* sinusoid of a traced day: (TAG.Num, GWPhase, GW, AMPL, argument the harness passed to math.Sin,
-   math.Sin's result, observed GRW): 1 = argument differs, 2 = GRW differs *)
-Definition sin_check (c : float * Z * float * float * float * float * float) : nat :=
-  let '(tag, phase, gw, ampl, arg, s, grw) := c in
-  ((if float_same (sin_arg tag phase) arg then 0 else 1) +
-   (if float_same (gw_sinus gw ampl s) grw then 0 else 2))%nat.
+(* sinusoid of a traced day: (TAG.Num, CONFIGURED GroundWaterPhase, g.GWPhase observed, GW, AMPL, argument
+   the harness passed to math.Sin (computed from the configured phase), math.Sin's result, observed GRW):
+   1 = argument differs, 2 = GRW differs, 4 = g.GWPhase is not the configured phase *)
+Definition sin_check (c : float * Z * Z * float * float * float * float * float) : nat :=
+  let '(tag, phase, gphase, gw, ampl, arg, s, grw) := c in
+  ((if float_same (sin_arg tag (gw_phase_of_config phase)) arg then 0 else 1) +
+   (if float_same (gw_sinus gw ampl s) grw then 0 else 2) +
+   (if Z.eqb (gw_phase_of_config phase) gphase then 0 else 4))%nat.
 
 (* input.go:73-75: (GRLO, GRHI, observed GW, observed AMPL) *)
 Definition poly_check (c : Z * Z * float * float) : nat :=
